@@ -202,6 +202,11 @@ func (f *MemFile) Read(b []byte) (n int, err error) {
 		return 0, &fs.PathError{Op: op, Path: f.name, Err: fs.ErrClosed}
 	}
 
+	if len(b) == 0 {
+		// a zero-length transfer on an open handle does nothing, as with os.File.
+		return 0, nil
+	}
+
 	nd, ok := f.nd.(*fileNode)
 	if !ok {
 		err = avfs.ErrIsADirectory
@@ -265,6 +270,11 @@ func (f *MemFile) ReadAt(b []byte, off int64) (n int, err error) {
 
 	if off < 0 {
 		return 0, &fs.PathError{Op: "readat", Path: f.name, Err: avfs.ErrNegativeOffset}
+	}
+
+	if len(b) == 0 {
+		// a zero-length transfer on an open handle does nothing, as with os.File.
+		return 0, nil
 	}
 
 	if f.openMode&avfs.OpenRead == 0 {
@@ -698,6 +708,11 @@ func (f *MemFile) WriteAt(b []byte, off int64) (n int, err error) {
 
 	if off < 0 {
 		return 0, &fs.PathError{Op: "writeat", Path: f.name, Err: avfs.ErrNegativeOffset}
+	}
+
+	if len(b) == 0 {
+		// a zero-length transfer on an open handle does nothing, as with os.File.
+		return 0, nil
 	}
 
 	f.mu.RLock()
